@@ -85,7 +85,7 @@ operations with any arguments) from the empty library, every query — for any c
 existing or not — is a value or an exception and terminates. -/
 theorem v2c_C15_reachable_queries_no_ub (ops : List Op) (hapi : ops.all apiOp = true) (q : Query) (u : Ub) :
     queryG (run Db.empty ops) q ≠ .ub u := by
-  have hI := inv_run inv_empty ops hapi
+  obtain ⟨_, _, hI, _⟩ := inv_run inv_empty ops (all_memOp_of_apiOp hapi)
   exact queryG_defined _ hI.ch.rk hI.ch.re (forestOk_of_plInv hI.pl) q u
 
 /-- The restriction to the public API is needed: at table level (`playlist_entity_table`, reachable
